@@ -106,8 +106,11 @@ def ts_lines(rng, n):
     for w in (4, 8):
         lines.append('cts 0 %d none' % w)
         lines.append('cts 1 %d none' % w)
-        lines.append('pts 0 %d %s' % (w, 'ff' * w))
-        lines.append('pts 0 %d %s' % (w, 'ff' * (w - 1)))
+        for ms in (0, 1):   # the "forever" sentinel and its neighbours at either resolution
+            lines.append('pts %d %d %s' % (ms, w, 'ff' * w))
+            lines.append('pts %d %d %s' % (ms, w, 'ff' * (w - 1)))
+            lines.append('pts %d %d %s' % (ms, w, 'ff' * (w - 1) + 'fe'))
+            lines.append('pts %d %d %s' % (ms, w, 'ff' * w + '00'))
     lines.append('pts 0 8 000000ffffffffff')
     return lines
 
